@@ -130,12 +130,6 @@ func NewFollowerController(config Config, namespace string, shardId int64, wf wa
 	fc.applyEntriesCond = concurrent.NewConditionContext(fc)
 
 	var err error
-	if fc.wal, err = wf.NewWal(namespace, shardId, fc); err != nil {
-		return nil, err
-	}
-
-	fc.lastAppendedOffset = fc.wal.LastOffset()
-
 	if fc.db, err = kv.NewDB(namespace, shardId, kvFactory, config.NotificationsRetentionTime, time.SystemClock); err != nil {
 		return nil, err
 	}
@@ -155,6 +149,14 @@ func NewFollowerController(config Config, namespace string, shardId int64, wf wa
 		return nil, err
 	}
 	fc.commitOffset.Store(commitOffset)
+
+	// The WAL is opened after the commit offset is known: its recovery asks CommitOffset() to tell
+	// damage in the uncommitted tail (discarded) from damage to committed entries (an error)
+	if fc.wal, err = wf.NewWal(namespace, shardId, fc); err != nil {
+		return nil, multierr.Append(err, fc.db.Close())
+	}
+
+	fc.lastAppendedOffset = fc.wal.LastOffset()
 
 	if fc.lastAppendedOffset == wal.InvalidOffset {
 		// The wal is empty, though we have restored from snapshot
